@@ -35,7 +35,9 @@ class ScriptedRNG:
         if self.preset:
             v = Fraction(self.preset.pop(0))
         else:
-            k = self.r.randint(-self.nr * (1 << self.nb), self.nr * (1 << self.nb))
+            k = 0
+            while k == 0:      # an exact 0.0 has probability zero for a real generator
+                k = self.r.randint(-self.nr * (1 << self.nb), self.nr * (1 << self.nb))
             v = Fraction(k, 1 << self.nb)
         self.log.append(("normal", v))
         return float(v)
